@@ -44,7 +44,7 @@ func WithExists(t []refdb.Tok) []refdb.Tok {
 // non-numeric value in a numeric field, text words, no tokens at all).
 var Templates = []Template{
 	{{"k", "a"}, {"n", "1"}, {"m", "x"}},
-	{{"k", "ab"}, {"n", "2"}, {"m", "x"}, {"m", "y"}},
+	{{"k", "ab"}, {"n", "+2"}, {"m", "x"}, {"m", "y"}}, // a number spelled with an explicit plus sign
 	{{"k", "b"}, {"n", "10"}},
 	{{"k", "ba"}, {"n", "-1"}, {"m", "y"}},
 	{{"k", "abc"}, {"n", "1.5"}},
